@@ -27,6 +27,20 @@ Definition err_last {A} (m : M A) : Prop :=
   forall s r s', m s = (r, s') ->
     match r with Err _ => exists l, io s' = IoRaise :: l | _ => True end.
 
+(* C11: no raise among these events *)
+Definition quiet (l : list io_event) : Prop := ~ In IoRaise l.
+
+(* C11: a failure is never silently ignored.  A computation that comes back with a value or
+   a control-flow signal has raised nothing on the way; one that comes back with an error
+   has raised exactly once, and that is the most recent event *)
+Definition raises_surface {A} (m : M A) : Prop :=
+  forall s r s', m s = (r, s') ->
+    match r with
+    | Ok _ | Sig _ => exists l, io s' = l ++ io s /\ quiet l
+    | Err _ => exists l, io s' = IoRaise :: l ++ io s /\ quiet l
+    | Panic | Fuel | Unsupp => True
+    end.
+
 (* C08: the stack of frame NAMES (hence the depth) *)
 Definition frame_names (s : st) : list bytes := map fname (frames s).
 Definition same_frames (s s' : st) : Prop := frame_names s' = frame_names s.
